@@ -429,7 +429,7 @@ def _evaluate(case, ctx, b, prog, opts):
     try:
         schema = fn(tp, **kw)
     except RecursionError as e:
-        ctx.violation({"kind": "non_termination", **_features(prog)}, case, "RecursionError in schema generation")
+        ctx.violation({"kind": "non_termination", "exc": "RecursionError", **_features(prog)}, case, "RecursionError in schema generation")
         return
     except ValueError as e:
         if clash and "share same reference" in str(e):
@@ -500,7 +500,7 @@ def _evaluate(case, ctx, b, prog, opts):
             ext_defs = definitions_schema(**{opts["entry"]: [tp]}, **dkw)
             ext_defs = json.loads(json.dumps(ext_defs))
         except RecursionError:
-            ctx.violation({"kind": "non_termination", **_features(prog)}, case, "RecursionError in definitions_schema")
+            ctx.violation({"kind": "non_termination", "exc": "RecursionError", **_features(prog)}, case, "RecursionError in definitions_schema")
             return
         except Exception as e:
             ctx.violation({"kind": "definitions_schema_crash", "exc": type(e).__name__}, case, repr(e))
@@ -617,7 +617,7 @@ def _multi_entry(case, ctx, b, prog, opts):
     try:
         got = call(entries, all_refs=True)
     except Exception as e:
-        ctx.violation({"kind": "multi_entry_definitions_crash", "exc": type(e).__name__}, case, f"every entry has an inline schema but definitions_schema raises {e!r}")
+        ctx.violation({"kind": "multi_entry_definitions_crash", "exc": type(e).__name__, **_features(prog)}, case, f"every entry has an inline schema but definitions_schema raises {e!r}")
         return
     has_conv = any(conv is not None for _, conv in entries)
     ctx.h("multi_entry:conv" if has_conv else "multi_entry:plain")
@@ -637,7 +637,7 @@ def _multi_entry(case, ctx, b, prog, opts):
         kw = {} if opts.get("all_refs") is None else {"all_refs": opts["all_refs"]}
         fwd, bwd = call(entries, **kw), call(entries[::-1], **kw)
     except Exception as e:
-        ctx.violation({"kind": "multi_entry_definitions_crash", "exc": type(e).__name__}, case, repr(e))
+        ctx.violation({"kind": "multi_entry_definitions_crash", "exc": type(e).__name__, **_features(prog)}, case, repr(e))
         return
     if fwd != bwd:
         ctx.violation({"kind": "multi_entry_order_dependent", "conv": has_conv}, case,
